@@ -211,9 +211,32 @@ func genNode(rt *rapid.T, depth int, budget *int) []byte {
 
 // genBER: normal trees plus the shapes that probe the decoder limits.
 func genBER(rt *rapid.T) []byte {
-	shape := rapid.IntRange(0, 11).Draw(rt, "shape")
+	shape := rapid.IntRange(0, 12).Draw(rt, "shape")
 	budget := 40
 	switch shape {
+	case 12: // very deep chain (far beyond any sane nesting limit): 100..3000 levels of definite short, definite long (82 xx xx) or indefinite lengths
+		d := rapid.SampledFrom([]int{100, 300, 1000, 2000, 3000}).Draw(rt, "vdeep")
+		form := rapid.IntRange(0, 2).Draw(rt, "vform")
+		tag := rapid.SampledFrom([]byte{0x30, 0x31, 0xA0, 0x61, 0x7F}).Draw(rt, "vtag")
+		inner := []byte{0x04, 0x01, 0x41}
+		for i := 0; i < d; i++ {
+			hdr := []byte{tag}
+			if tag == 0x7F {
+				hdr = []byte{0x7F, 0x61}
+			}
+			switch {
+			case form == 2:
+				inner = cat(hdr, []byte{0x80}, inner, []byte{0, 0})
+			case form == 1 || len(inner) > 127:
+				inner = cat(hdr, []byte{0x82, byte(len(inner) >> 8), byte(len(inner))}, inner)
+			default:
+				inner = cat(hdr, []byte{byte(len(inner))}, inner)
+			}
+			if len(inner) > 60000 {
+				break
+			}
+		}
+		return inner
 	case 0: // deep chain around a leaf: depth 45..56 (limit is 50), definite or indefinite
 		d := rapid.IntRange(44, 56).Draw(rt, "deep")
 		indef := rapid.Bool().Draw(rt, "dind")
@@ -297,6 +320,9 @@ func genLDS(rt *rapid.T, kind int) []byte {
 		return cat(tl(0x61, tl(0x4F, val("aid", []byte{0xA0, 0, 0, 2, 0x47, 0x10, 1}))), tl(0x61, sub()))
 	case kDG2:
 		bdb := val("bdb", seed19794)
+		if rapid.Bool().Draw(rt, "bdbGrammar") {
+			bdb = gen19794(rt)
+		}
 		return tl(0x75, tl(0x7F61, tl(0x02, val("cnt", []byte{1})), tl(0x7F60, tl(0xA1, tl(0x80, []byte{1, 1}), tl(0x87, []byte{1, 1}), tl(0x88, []byte{0, 8}), sub()), tl(uint32(rapid.SampledFrom([]int{0x5F2E, 0x7F2E}).Draw(rt, "bt")), bdb))))
 	case kDG13, kDG15, kDG14, kSOD:
 		root := map[int]uint32{kDG13: 0x6D, kDG15: 0x6F, kDG14: 0x6E, kSOD: 0x77}[kind]
@@ -305,6 +331,83 @@ func genLDS(rt *rapid.T, kind int) []byte {
 		return cat(encTag(root), l, inner)
 	}
 	return sub()
+}
+
+// gen19794 builds an ISO/IEC 19794-5 facial record from its grammar with hostile
+// length / count fields: FacialHeader (FAC\0, version, record length, number of faces),
+// then per face FacialInfo (block length, number of feature points, ...), the feature
+// point blocks (8 octets each, as many as declared or fewer), ImageInfo (12 octets)
+// and an image.  The block length is drawn around every boundary the parser
+// computes with: 0, 20, 31, 32, 32 + 8n - 1, 32 + 8n, the exact value, the
+// exact value +- 1, and values with the top bit set.
+func gen19794(rt *rapid.T) []byte {
+	be16 := func(v int) []byte { return []byte{byte(v >> 8), byte(v)} }
+	be32 := func(v uint32) []byte { return []byte{byte(v >> 24), byte(v >> 16), byte(v >> 8), byte(v)} }
+	nFaces := rapid.SampledFrom([]int{1, 1, 1, 2, 3, 0}).Draw(rt, "faces")
+	var body []byte
+	for f := 0; f < nFaces; f++ {
+		nPts := rapid.SampledFrom([]int{0, 1, 1, 2, 3, 5, 40}).Draw(rt, "points")
+		declPts := nPts
+		switch rapid.IntRange(0, 7).Draw(rt, "pointsLie") {
+		case 0:
+			declPts = nPts + rapid.IntRange(1, 3).Draw(rt, "ptsMore")
+		case 1:
+			declPts = 65535
+		}
+		img := append([]byte{0xFF, 0xD8, 0xFF, 0xE0}, genSmall(rt, "img", 40)...)
+		if rapid.IntRange(0, 5).Draw(rt, "imgKind") == 0 {
+			img = append([]byte{0x00, 0x00, 0x00, 0x0C, 0x6A, 0x50, 0x20, 0x20, 0x0D, 0x0A}, genSmall(rt, "jp2", 40)...)
+		}
+		exact := uint32(20 + 12 + 8*declPts + len(img))
+		length := exact
+		switch rapid.IntRange(0, 13).Draw(rt, "blockLen") {
+		case 0:
+			length = 0
+		case 1:
+			length = 20
+		case 2:
+			length = 31
+		case 3:
+			length = 32
+		case 4:
+			length = uint32(32 + 8*declPts - 1)
+		case 5:
+			length = uint32(32 + 8*declPts)
+		case 6:
+			length = uint32(32 + rapid.IntRange(0, 8*declPts+1).Draw(rt, "within"))
+		case 7:
+			length = exact + 1
+		case 8:
+			length = exact - 1
+		case 9:
+			length = 0x80000000 | exact
+		case 10:
+			length = 0xFFFFFFFF
+		}
+		fi := cat(be32(length), be16(declPts), genFixed(rt, "fi", 14))
+		var pts []byte
+		for i := 0; i < nPts; i++ {
+			pts = append(pts, genFixed(rt, "pt", 8)...)
+		}
+		body = cat(body, fi, pts, genFixed(rt, "ii", 12), img)
+	}
+	declFaces := nFaces
+	if rapid.IntRange(0, 9).Draw(rt, "facesLie") == 0 {
+		declFaces = rapid.SampledFrom([]int{0, nFaces + 1, 255, 65535}).Draw(rt, "declFaces")
+	}
+	total := uint32(14 + len(body))
+	switch rapid.IntRange(0, 9).Draw(rt, "recLen") {
+	case 0:
+		total -= uint32(rapid.IntRange(1, 8).Draw(rt, "recShort")) // tolerated by the parser (observed on real passports)
+	case 1:
+		total = rapid.SampledFrom([]uint32{0, 13, 14, 0xFFFFFFFF, total + 1, total + 9}).Draw(rt, "recOdd")
+	}
+	return cat([]byte{'F', 'A', 'C', 0, '0', '1', '0', 0}, be32(total), be16(declFaces), body)
+}
+
+// genFixed draws exactly n octets.
+func genFixed(rt *rapid.T, label string, n int) []byte {
+	return rapid.SliceOfN(rapid.Byte(), n, n).Draw(rt, label)
 }
 
 // genInput returns an input for a byte-oriented target and its generator class.
